@@ -250,4 +250,176 @@ C08 = dict(
     partial='floating-point rounding; moments are evaluated by quadrature on the implementation, proved for the exact matrix root',
 )
 
-SPECS = {'C01': C01, 'C06': C06, 'C07': C07, 'C08': C08}
+
+# ------------------------------------------------------------------------------------------ C05
+
+def c05_small(nvals, tol):
+    """one finite flag, then `nvals` residuals (hex doubles) that must be <= tol; anything after is informational"""
+    def chk(vals, line):
+        t = line.split()
+        if not t or t[0] != 'ok': return 'error result ' + line[:120]
+        if t[1] != '1': return 'a generated or predicted statistic is not finite'
+        for i in range(nvals):
+            x = hexd(t[2 + i])
+            if not (x <= tol): return 'residual %g exceeds %g at output %d (informational outputs: %s)' % (x, tol, i, ' '.join(t[2 + nvals:]))
+        return None
+    return chk
+
+
+def coherent_mod_check(zero_coherence):
+    inner = c05_small(2 if zero_coherence else 1, 1e-12)
+    def chk(vals, line):
+        why = inner(vals, line)
+        if why: return why
+        if line.split()[-1] != '1': return 'a modulator did not draw exactly one factor per instance'
+        return None
+    return chk
+
+
+def counts_check(kind, f, n):
+    """the generator draws exactly the instances the prediction assumes"""
+    def chk(vals, line):
+        t = line.split()
+        if not t or t[0] != 'ok': return 'error result ' + line[:120]
+        a, b = int(t[1]), int(t[2]); st = [hexd(x) for x in t[3:7]]
+        if kind == 'superposed':
+            if (a, b) != (n, n): return 'superposed sample of %d drew %d/%d fields' % (n, a, b)
+            if st[:3] != [5.0, -3.0, 4.0]: return 'superposed stub sample is %r' % st
+        if kind == 'composite':
+            nA = int(f * n); nB = n - nA
+            # I = (a' + 4 b')/n, Q = (a' - 4 b')/n for a' summed instances of A and b' of B
+            sa = (st[0] * n + st[1] * n) / 2; sb = (st[0] * n - st[1] * n) / 8
+            if abs(sa - nA) > 1e-9 or abs(sb - nB) > 1e-9: return 'composite sample of %d with fraction %g sums %g instances of A and %g of B; the prediction assumes %d and %d' % (n, f, sa, sb, nA, nB)
+            if a != b: return 'modes were not drawn in lock-step (%d, %d)' % (a, b)
+        if kind == 'disjoint':
+            if sorted([a, b]) != [0, n]: return 'disjoint sample of %d drew %d/%d fields' % (n, a, b)
+            if t[7] != '1': return 'disjoint sample consumed %s uniform deviates' % t[7]
+        return None
+    return chk
+
+
+def unit_mean_outcomes(g):
+    """a discrete joint law of two unit-mean factors: (a_k, b_k, p_k)"""
+    k = g.choice([1, 2, 3])
+    if k == 1:
+        d, e = g.r.uniform(0.1, 0.9), g.r.uniform(0.1, 0.9)
+        sgn = g.choice([1, -1])
+        return [(1 - d, 1 - sgn * e, 0.5), (1 + d, 1 + sgn * e, 0.5)]
+    if k == 2:
+        d = g.r.uniform(0.1, 0.9)
+        return [(1 - d, 1.0, 0.25), (1 + d, 1.0, 0.25), (1.0, 1 - d / 2, 0.25), (1.0, 1 + d / 2, 0.25)]
+    d, e = g.r.uniform(0.1, 0.9), g.r.uniform(0.1, 0.9)
+    return [(1 - d, 1 - e, 0.25), (1 - d, 1 + e, 0.25), (1 + d, 1 - e, 0.125), (1 + d, 1 + e, 0.375)][:4] if False else \
+           [(1 - d, 1 - e, 0.3), (1 + d, 1 + e, 0.3), (1 - d, 1 + e, 0.2), (1 + d, 1 - e, 0.2)]
+
+
+def pure_state(g):
+    th, ph = g.r.uniform(0, math.pi), g.r.uniform(0, 2 * math.pi); I = g.choice([1.0, 2.0, 0.5, g.r.uniform(0.1, 10)])
+    N, a, b, c = g.choice(QUADS)
+    return g.choice([[I, I * a / N, I * b / N, I * c / N], [1.0, 1.0, 0.0, 0.0], [2.0, 0.0, -2.0, 0.0], [1.0, 0.0, 0.0, 1.0]])
+
+
+def gen_C05(g, tier):
+    n = 10 if tier == 'quick' else 150
+    cs = []
+    fam = [s for _, s in stokes_family(g, 6 if tier == 'quick' else 60)]
+    mid = [s for s in fam if 1e-6 < s[0] < 1e6] or [[1.0, 0.2, 0.1, 0.0]]
+    fracs = [0.0, 1.0, 0.25, 0.5, 0.75, 0.1, 1 / 3.0, 0.999, 0.001, 0.6]
+    # instance counts for every (fraction, sample size) on a grid: exhaustive over n = 1..24
+    for f in fracs:
+        for ns in list(range(1, 25)) + [100, 1000]:
+            cs.append(Case('du.counts composite %s %d' % (dhex(f), ns), 'cmp', 'composite-counts', check=counts_check('composite', f, ns)))
+    for ns in (1, 2, 3, 8, 100):
+        cs.append(Case('du.counts superposed %s %d' % (dhex(0.0), ns), 'cmp', 'superposed-counts', check=counts_check('superposed', 0, ns)))
+        for f in (0.0, 0.25, 1.0):
+            for r in (0, 1, 2 ** 29, 2 ** 30, 2 ** 31 - 2, 2 ** 31 - 1, g.randint(0, 2 ** 31 - 1)):
+                cs.append(Case('du.counts disjoint %s %d %d' % (dhex(f), ns, r), 'cmp', 'disjoint-counts', check=counts_check('disjoint', f, ns)))
+    for _ in range(n):
+        SA, SB = g.choice(mid), g.choice(mid)
+        f = g.choice(fracs + [g.random()]); ns = g.choice([1, 1, 2, 3, 4, 7, 8, 16, 33])
+        kappa = g.choice([0.0, 0.0, 0.3, -0.2, g.r.uniform(-0.5, 1.5)])
+        lag = g.choice([0, 1, 2])
+        kinds = mode_kinds(g)
+        for kind in ('superposed', 'composite', 'disjoint', 'coherent'):
+            ka = g.choice(kinds); kb = g.choice(kinds)
+            ka = ka[1] or 'square %s %d %d' % (dhex(0.5), g.randint(2, 5), ns); kb = kb[1] or 'square %s %d %d' % (dhex(1.0), g.randint(2, 5), ns)
+            cs.append(Case('du.theory %s %s %d %s %d %s %s %s %s' % (kind, dhex(f), ns, dhex(kappa), lag, hexes(SA), ka, hexes(SB), kb), 'cmp', kind + '-theory'))
+            cs.append(Case('du.theory %s %s %d %s %d %s plain %s plain' % (kind, dhex(f), ns, dhex(0.0), lag, hexes(SA), hexes(SB)), 'cmp', kind + '-theory-plain', check=finite_all))
+        for kind in ('superposed', 'composite', 'disjoint'):
+            devs = [g.choice(NODES) if g.random() < 0.3 else f32(g.r.gauss(0, 1)) for _ in range(8 * ns)]
+            cs.append(Case('du.gen %s %s %d %d %s %s %s' % (kind, dhex(f), ns, g.randint(0, 2 ** 31 - 1), hexes(SA), hexes(SB), hexes(devs)), 'cmp', kind + '-generator'))
+    # exact ensemble moments of what is generated against what is predicted
+    for _ in range(max(2, n // 5)):
+        SA, SB = g.choice(mid), g.choice(mid)
+        cs.append(Case('o.c05.super %s %s 0' % (hexes(SA), hexes(SB)), 'orc', 'superposed-moments', check=c05_small(2, 1e-12)))
+        oc = unit_mean_outcomes(g)
+        cs.append(Case('o.c05.super %s %s %d %s' % (hexes(SA), hexes(SB), len(oc), ' '.join(hexes(o) for o in oc)), 'orc', 'superposed-moments-covariant', check=c05_small(2, 1e-12)))
+    for _ in range(n):
+        SA, SB = g.choice(fam), g.choice(fam)
+        if not (1e-3 < SA[0] / max(SB[0], 1e-300) < 1e3): SB = [SA[0] * x for x in g.choice(mid)]
+        f = g.choice(fracs + [g.random()]); ns = g.choice([1, 2, 3, 4, 5, 8, 12, 31])
+        kappa = g.choice([0.0, 0.3, -0.2])
+        cs.append(Case('o.c05.composite %s %d %s %s %s' % (dhex(f), ns, dhex(kappa), hexes(SA), hexes(SB)), 'orc', 'composite-moments', check=c05_small(2, 1e-12)))
+        cs.append(Case('o.c05.disjoint %s %d %s %s' % (dhex(f), g.choice([1, 1, 2]), hexes(SA), hexes(SB)), 'orc', 'disjoint-moments', check=c05_small(4, 2e-9)))
+        A, B = pure_state(g), pure_state(g)
+        coh = g.choice([0.0, 0.25, 0.5, 1.0, g.random()])
+        # mean at every coherence; covariance only at zero coherence (second residual masked otherwise)
+        cs.append(Case('o.c05.coherent %s %s %s 16' % (dhex(coh), hexes(A), hexes(B)), 'orc', 'coherent-moments', check=c05_small(2 if coh == 0.0 else 1, 1e-12)))
+        # independently modulated modes (two- and three-point unit-mean laws, different on A and B, or on one mode only)
+        d, e = g.r.uniform(0.2, 0.9), g.r.uniform(0.1, 0.5)
+        ma = '2 %s %s' % (hexes([1 - d, 0.5]), hexes([1 + d, 0.5])); mb = '3 %s %s %s' % (hexes([1 - e, 0.25]), hexes([1.0, 0.5]), hexes([1 + e, 0.25]))
+        for mods in (ma + ' ' + mb, ma + ' 0', '0 ' + mb):
+            cs.append(Case('o.c05.coherent %s %s %s 8 %s' % (dhex(coh), hexes(A), hexes(B), mods), 'orc', 'coherent-moments-modulated', check=coherent_mod_check(coh == 0.0)))
+    # lagged statistics with time-correlated modulation (several of these are recorded findings)
+    def first_small(tol):
+        def chk(vals, line):
+            t = line.split()
+            if not t or t[0] != 'ok': return 'error result ' + line[:120]
+            x = hexd(t[1])
+            if not (x <= tol): return 'predicted and exact ensemble value differ by %g (exact %s, predicted %s)' % (x, ' '.join('%.9g' % hexd(h) for h in t[2:3]), ' '.join('%.9g' % hexd(h) for h in t[3:4]))
+            return None
+        return chk
+    for f in (1.0, 0.5, 0.25, 0.75):
+        for ns in (1, 2, 4, 5):
+            for w in (1, 2, 3, 5):
+                for lag in (0, 1, 2):
+                    if tier == 'quick' and g.random() < 0.6: continue
+                    cs.append(Case('o.c05.lagcomposite %s %d %d %d %s' % (dhex(f), ns, w, lag, dhex(g.choice([0.5, 1.0, 0.09]))), 'orc', 'composite-lagged-boxcar', check=first_small(1e-12)))
+    for sel in (0, 1):
+        for ns in (1, 2, 4):
+            for lag in (0, 1, 2):
+                SA = g.choice(mid)
+                for tag, kind in mode_kinds(g):
+                    if kind is None: kind = 'square %s %d %d' % (dhex(0.5), g.randint(2, 5), ns)
+                    cs.append(Case('o.c05.lagdisjoint %d %d %d %s %s' % (sel, ns, lag, hexes(SA), kind), 'orc', 'disjoint-lagged-' + tag, check=first_small(1e-12)))
+    for ns in (1, 2, 4):
+        for w in (1, 2, 3):
+            for k in (0.0, 0.2, -0.1):
+                cs.append(Case('o.c05.covboxcar %d %d %s %s %s' % (ns, w, dhex(0.5), dhex(0.25), dhex(k)), 'orc', 'superposed-covariant-boxcar', check=first_small(1e-12)))
+    return cs
+
+
+def c05_replay_check(vals, line):
+    t = line.split()
+    if not t or t[0] != 'ok': return 'error result ' + line[:120]
+    if len(t[1]) == 16: return None if hexd(t[1]) <= 1e-12 else 'predicted and exact value differ by %g' % hexd(t[1])
+    if t[1] != '1': return 'a generated or predicted statistic is not finite'
+    x = hexd(t[2])
+    return None if x <= 2e-9 else 'mean residual %g' % x
+
+
+C05 = dict(
+    id='C05', module='EpsicProofs.Props.C05', gen=gen_C05, replay_check=c05_replay_check,
+    rule='instance counts of composite samples for every fraction on a grid and every sample size 1..24, 100, 1000 (stub modes), '
+         'superposed and disjoint draws (uniform source at 0, 1, mid, RAND_MAX-1, RAND_MAX); predictions (mean, covariance, lagged '
+         'cross-covariance) of superposed / composite / disjoint / coherent samples for plain, log-normal, boxcar and rectangular '
+         'modes with intensity covariance, compared bit for bit with the model at Float; generators on scripted deviates compared with '
+         'the model; exact ensemble moments of the implementation: 5^8-node cubature of one superposed instance under discrete joint laws '
+         'of the modulation factors, composite (measured counts x per-mode cubature), disjoint (selection probability counted over the '
+         'whole range of random() by bisection; mixture of per-mode sample moments), coherent (cubature x 16-point phase quadrature)',
+    trusted=['cubature exact for the degree-4 polynomials involved', 'glibc sqrt/sin/cos'],
+    assumptions=['the Gaussian law satisfies the moment structure GaussE', 'instances of plain modes are independent because each consumes its own deviates (stream model)'],
+    partial='lagged cross-covariances with time-correlated modulation (see known findings); coherent covariance only at zero coherence, as the property states',
+)
+
+SPECS = {'C01': C01, 'C05': C05, 'C06': C06, 'C07': C07, 'C08': C08}
